@@ -161,10 +161,14 @@ impl<'a, V> BTreeRangeTo<'a, V> {
                 && forall|k2: &'a u64, v2: &'a V| btree_view(*old(self).m).contains_key(*k2) && *k2 < old(self).hi && *k2 > *k && btree_view(*old(self).m)[*k2] == *v2 ==> f.ensures((&(k2, v2),), false),
         } { unimplemented!() }
 }
+pub uninterp spec fn hash_view<K, V>(m: HashMap<K, V>) -> vstd::map::Map<K, V>;
 impl<V> HashMap<u64, V> {
     #[verifier::external_body]
     pub fn clear(&mut self) { unimplemented!() }
 }
+/// D26 targets (std documentation): `HashMap::new()` and `<BTreeMap as Default>::default()` are the empty maps
+#[verifier::external_body] pub fn verif_hashmap_new<K, V>() -> (r: HashMap<K, V>) ensures hash_view(r) =~= vstd::map::Map::<K, V>::empty() { unimplemented!() }
+#[verifier::external_body] pub fn verif_btreemap_default<K, V>() -> (r: BTreeMap<K, V>) ensures btree_view(r) =~= vstd::map::Map::<K, V>::empty() { unimplemented!() }
 /// u64::abs_diff (std documentation)
 pub assume_specification [u64::abs_diff] (a: u64, b: u64) -> (r: u64) ensures r == (if a >= b { a - b } else { b - a });
 /// slice::reverse (std documentation): the elements in reverse order
